@@ -1,3 +1,24 @@
+import Tumfl.Props.C08
 import Tumfl.Props.C11
+import Tumfl.Props.C06
+import Tumfl.Props.C07
+import Tumfl.Props.C13
+#print axioms Tumfl.Props.C08_remove_separators
+#print axioms Tumfl.Props.C08_add_spacing
+#print axioms Tumfl.Props.C08_remove_orphaned
+#print axioms Tumfl.Props.C08_resolve_tokens
+#print axioms Tumfl.Props.C08_join
+#print axioms Tumfl.Props.C08_indent_brackets
+#print axioms Tumfl.Props.C08_string_wrap
+#print axioms Tumfl.Props.C08_wrap_progress
+#print axioms Tumfl.Props.C02_boundary
 #print axioms Tumfl.Props.C11_roundtrip
+#print axioms Tumfl.Props.C11_emit_is_par
+#print axioms Tumfl.Props.C11_emit_roundtrip
+#print axioms Tumfl.Props.C11_minified
 #print axioms Tumfl.Inst.brackets_sound_all
+#print axioms Tumfl.Props.C06_quoted
+#print axioms Tumfl.Props.C06_long
+#print axioms Tumfl.Props.C06_forms
+#print axioms Tumfl.Props.C07_partial
+#print axioms Tumfl.Props.C13_emit_on
